@@ -91,7 +91,8 @@ Definition raw_seek (size : Z) (st : rawst) (count : Z) : rawst * Z :=
 Definition raw_read (S : list Z) (size : Z) (st : rawst) (nmemb : Z) : rawst * list Z * Z :=
   let got := slice S (r_off st) (nmemb * size) in
   let n := len got / size in
-  (set_off st (r_fpos st + n) (r_off st + len got), got, n).
+  (* raw.c:95-99: the descriptor steps back over a partly present trailing sample *)
+  (set_off st (r_fpos st + n) (r_off st + n * size), got, n).
 
 (* ------------------------------------------------------------------ text (ascii.c) *)
 Definition txt_seek (c : cfg) (ns : Z) (st : rawst) (count : Z) : rawst * Z :=
@@ -405,8 +406,7 @@ Section Bz.
                 | Val l1 =>
                   let '(s, o2) := do_field fuel' d s b inner first (len l1) in
                   (s, match o2 with
-                      | Val [] => UB            (* n_read2 = 0: the product uses an uninitialised buffer *)
-                      | Val l2 => Val (zipmul l1 l2)
+                      | Val l2 => Val (zipmul l1 l2)   (* n_read2 = 0 returns nothing (getdata.c, cf7d300) *)
                       | x => x end)
                 | x => (s, x)
                 end
